@@ -616,6 +616,11 @@ ASSUMPTIONS = [
 
 
 def run(tier, seed):
+    def extra(r, cases, obs):
+        cov = _extra(r, cases, obs)
+        from . import c13names     # container names recomputed by separate interpreter processes (real restarts)
+        cov.update(c13names.stage(r, seed, 40 if tier == 'quick' else 400))
+        return cov
     core.standard_run(PID, tier, seed, {
         'model_vos': ['Node/AppCfg'], 'table_sections': ['source_shape'],
         'preamble': PREAMBLE, 'run_fn': RUN_FN, 'in_type': 'list op * list inst * list cont',
@@ -628,10 +633,13 @@ def run(tier, seed):
                 'cleanup completion by instance or container name, manager restart, node boot (running/ and cleanup/ cleared), plus scenario fragments '
                 '(evict+re-place, terminate+restart+resync, exit+resync, late event); non-trivial = two generations of '
                 'one instance coexist in apps/, or an exit/restart happens while something runs',
-        'trusted': TRUSTED, 'assumptions': ASSUMPTIONS, 'anchors': ANCHORS, 'extra': _extra,
+        'trusted': TRUSTED, 'assumptions': ASSUMPTIONS, 'anchors': ANCHORS, 'extra': extra,
     })
 
 
 def replay_case(case):
+    if isinstance(case, dict) and case.get('engine') == 'E-node-c13names':
+        from . import c13names
+        return c13names.replay_case(case)
     v = oracle(case, impl_run(case))
     return v[0] if v else None
